@@ -31,17 +31,21 @@ Print pf_stream.
    registered and the decoder consumed exactly the body; otherwise a disconnect
    reason (unknown id / undecodable / trailing bytes); a message built by the
    node re-encodes to the same frame *)
-Definition prop_convert (c : bytes * decoded * Z * bool) : bool :=
-  let '(f, dec, code, same) := c in
+(* handler_ok: the message convertToMessage produced was handed to its real Handle
+   and process (recording daemoner) and they returned without a panic. Handler
+   totality is observed on the implementation at run time, it is not a theorem. *)
+Definition prop_convert (c : bytes * decoded * Z * bool * bool) : bool :=
+  let '(f, dec, code, same, handler_ok) := c in
+  handler_ok &&
   let known := id_known (obs_table ++ test_ids) (firstn 4 f) in
   let body := skipn 4 f in
-  negb (code =? 98) && negb (code =? 97) && same &&
+  (negb (code =? 98) && negb (code =? 97) && same &&
   (if blen f <? 4 then code =? 2
    else if negb known then code =? 3
    else match dec with
         | DecPanic | DecErr => code =? 4
         | DecOk used => if used =? blen body then code =? 0 else code =? 5
-        end).
+        end)).
 Definition pf_convert := Eval vm_compute in failing prop_convert cases_convert.
 Print pf_convert.
 
